@@ -233,17 +233,25 @@ func (s *Sim) Apply(o Op) (out Outcome) {
 	case "B":
 		s.Blk++
 		status, err := s.Stk.SyncPOS(s.FC, s.Blk)
-		if err != nil {
-			return fail(err)
-		}
 		v := uint64(0)
+		if err != nil {
+			// what packer.Schedule and the consensus validator do: revert to the checkpoint taken before SyncPOS and go on with
+			// the block (the status keeps Active as read before the failing step)
+			s.St.RevertTo(cp)
+			status.Updates = false
+			v = 4
+		}
 		if status.Active {
 			v += 2
 		}
 		if status.Updates {
 			v++
 		}
-		return Outcome{Val: v}
+		out := Outcome{Val: v}
+		if err != nil {
+			out.Err = err.Error()
+		}
+		return out
 	case "AV":
 		if !checkStake(o.X) {
 			return solRevert()
